@@ -382,9 +382,31 @@ func ruleMergeStringMaps(c *Ctx, r *Repo, cp *packages.Package) {
 		recOK := rec == 1 && len(recCalls[0].Args) == 2 && recCalls[0].Args[0] == "V.(map[string]any)" && recCalls[0].Args[1] == "ARG1[K].(map[string]any)"
 		switch {
 		case !exists:
-			if !(stores == 1 && storeOK && rec == 0) {
+			// a missing key is inherited exactly once; a nested map is inherited as a fresh copy
+			// (mergeStringMaps(v, <new map>); dest[k] = <that map>), never by reference: the nested
+			// map would otherwise be shared with the less specific level and a later merge into this
+			// level would write through to it and to every sibling that inherited it
+			switch {
+			case !hasSM:
 				okAll = false
-				c.Fail("R08.2", "mergeStringMaps|inherit-missing-key", r.Pos(rs.Pos()), "a key missing at the more specific level is not inherited as dest[k] = v exactly once: "+p.String()+" steps="+strings.Join(p.Steps, "; "))
+				c.Fail("R08.2", "mergeStringMaps|nested-map-shared", r.Pos(rs.Pos()), "a key missing at the more specific level is inherited as dest[k] = v without testing whether v is a map: a nested map (template-data: {opts: {...}}) is then shared by reference between the levels, and a merge into one of them (a recursive package pushing its config into a listed sub-package) leaks into the top level and all sibling packages: "+p.String())
+			case sm:
+				fresh := ""
+				for _, st := range p.Steps {
+					if strings.HasPrefix(st, "store ARG1[K] = ") {
+						fresh = strings.TrimPrefix(st, "store ARG1[K] = ")
+					}
+				}
+				copied := stores == 1 && strings.HasPrefix(fresh, "builtin.make(map[string]any") && rec == 1 && len(recCalls[0].Args) == 2 && recCalls[0].Args[0] == "V.(map[string]any)" && recCalls[0].Args[1] == fresh
+				if !copied {
+					okAll = false
+					c.Fail("R08.2", "mergeStringMaps|nested-map-shared", r.Pos(rs.Pos()), "a nested map missing at the more specific level is not inherited as a fresh copy (make + mergeStringMaps(v, copy) + dest[k] = copy): "+strings.Join(p.Steps, "; "))
+				}
+			default:
+				if !(stores == 1 && storeOK && rec == 0) {
+					okAll = false
+					c.Fail("R08.2", "mergeStringMaps|inherit-missing-key", r.Pos(rs.Pos()), "a key missing at the more specific level is not inherited as dest[k] = v exactly once: "+p.String()+" steps="+strings.Join(p.Steps, "; "))
+				}
 			}
 		default:
 			if stores != 0 {
@@ -469,6 +491,11 @@ func ruleMergeOrder(c *Ctx, r *Repo, cp *packages.Package) {
 				if strings.HasSuffix(call.Name, "config.mergeConfigs") && len(call.Args) == 3 {
 					src, dst := call.Args[1], call.Args[2]
 					okDst := dst == "ELEM"+s.dst || dst == "config.NewPackageConfig()"+s.dst || dst == "config.NewInterfaceConfig()"+s.dst
+					// a nil element replaced by a fresh value that is stored back into the collection
+					if !okDst && s.dst == "" && dst == "&Config{}" {
+						nilElem, has := p.atom("ELEM == nil")
+						okDst = has && nilElem && hasStep(p, "store RECV."+s.loopMarker+"[") == 1
+					}
 					if src != s.src || !okDst {
 						good = false
 						c.Fail("R08.4", s.fn+"|direction", r.Pos(rs.Pos()), fmt.Sprintf("%s merges %s into %s; want the less specific level (%s) merged into the element being initialised", s.fn, src, dst, s.src))
